@@ -27,7 +27,9 @@ for rel, kinds in TARGETS.items():
     s = open(src).read()
     if "sync" in kinds:
         s, n = re.subn(r'^(\s*)"sync"\s*$', r'\1sync "verif/vsync"', s, flags=re.M)
-        if n != 1:
+        if n == 0 and not re.search(r'\bsync\.', s):
+            pass  # the file no longer uses any primitive of package sync: nothing to shim (its accesses are then seen by the race pass only)
+        elif n != 1:
             print("overlay: %s no longer imports \"sync\" on its own line (%d matches)" % (rel, n), file=sys.stderr); sys.exit(2)
     if "gotomic" in kinds:
         s, n = re.subn(r'^(\s*)"github.com/zond/gotomic"\s*$', r'\1gotomic "verif/vgotomic"', s, flags=re.M)
